@@ -47,3 +47,4 @@ run D17 2efc289 "C07 C13 C01"
 run D18 5854f53 "C15"
 run D19 f57f829 "C09 C07"
 run D20 cd37895 "C07 C09"
+run D21 ca8521f "C07 C01"
